@@ -34,6 +34,7 @@ def check(rep, model, tier):
     rep.assumptions += ['equality of tables for all histories is reduced to: same callee, same arguments, no hidden state; values are not compared',
                         'compute_features is pure (C15)']
     summ, det, rounds, ro = common.effects(model)
+    init_store(rep, model)
     fit(rep, model)
     reduce_and_recompute(rep, model)
     getattr_load(rep, model)
@@ -45,6 +46,40 @@ def check(rep, model, tier):
         if i['rule'] == 'DEFAULT-KEYS':
             i['rule'] = 'SHORTHAND'
     rep.floor('rule instances', len(rep.instances), 30)
+
+
+def init_store(rep, model):
+    """the constructor stores the settings it is given (and the documented defaults when they are omitted)"""
+    rep.rule('INIT-STORE', 'Bycycle / BycycleGroup constructors store each setting they are given under its own name; omitted burst_kwargs / find_extrema_kwargs / thresholds '
+                           'become {} / {"filter_kwargs": {"n_cycles": 3}} / the documented default thresholds of the burst method; result attributes start as None')
+    for cls in (BY, GRP):
+        short = cls.rsplit('.', 1)[1]
+        init = model.lookup_method(cls, '__init__')
+        site = f'{init.path}:{init.node.lineno} {short}.__init__'
+        ctx = new_ctx(model, ())
+        o = E.make_object(ctx, model, cls, SETTINGS)
+        at = E.attrs(ctx, o)
+        want = {'center_extrema': SETTINGS['center_extrema'], 'burst_method': SETTINGS['burst_method'], 'burst_kwargs': SETTINGS['burst_kwargs'],
+                'thresholds': TH, 'find_extrema_kwargs': SETTINGS['find_extrema_kwargs'], 'return_samples': SETTINGS['return_samples'],
+                'sig' if cls == BY else 'fs': NONE, 'fs': NONE, 'f_range': NONE, 'df_features': NONE}
+        bad = {k: T.brief(at.get(k), 60) if at.get(k) is not None else 'unset' for k in want if at.get(k) != want[k]}
+        if bad:
+            rep.violation('INIT-STORE', f'{short}(settings given)', site, expected={k: T.brief(v, 40) for k, v in want.items()}, found=bad)
+        else:
+            rep.ok('INIT-STORE', f'{short}(settings given)', site, found=f'{len(want)} attributes as given / None')
+        for method, th in (('cycles', ('dict', (('amp_consistency_threshold', C(T.Fraction(1, 2))), ('amp_fraction_threshold', C(0)), ('min_n_cycles', C(3)),
+                                                ('monotonicity_threshold', C(T.Fraction(4, 5))), ('period_consistency_threshold', C(T.Fraction(1, 2)))))),
+                           ('amp', ('dict', (('burst_fraction_threshold', C(1)), ('min_n_cycles', C(3)))))):
+            ctx = new_ctx(model, ())
+            o = E.make_object(ctx, model, cls, {'burst_method': C(method)})
+            at = E.attrs(ctx, o)
+            want = {'burst_kwargs': ('dict', ()), 'find_extrema_kwargs': ('dict', (('filter_kwargs', ('dict', (('n_cycles', C(3)),))),)), 'thresholds': th,
+                    'center_extrema': C('peak'), 'return_samples': T.TRUE}
+            bad = {k: T.brief(at.get(k), 80) if at.get(k) is not None else 'unset' for k in want if at.get(k) != want[k]}
+            if bad:
+                rep.violation('INIT-STORE', f'{short}(defaults, {method})', site, expected={k: T.brief(v, 60) for k, v in want.items()}, found=bad)
+            else:
+                rep.ok('INIT-STORE', f'{short}(defaults, {method})', site, found='documented defaults')
 
 
 def previous_results(t, obj_attrs_before):
@@ -110,6 +145,7 @@ def fit(rep, model):
     ctx.trace.clear()
     ctx.raises.clear()
     pk = {k: ('param', k) for k in p.params if k != 'self'}
+    E.attrs(ctx, o).update(df_features=('atom', 'FITTED_df_features', 'table'), sig=('atom', 'FITTED_sig', 'arr'), fs=('atom', 'FITTED_fs', 'num'))
     E.run(model, p.qual, dict(pk, self=o), ctx=ctx)
     evs = E.calls_to(ctx, 'plot_burst_detect_summary')
     psite = f'{p.path}:{p.node.lineno} Bycycle.plot'
